@@ -682,6 +682,18 @@ def run_evolve(case, ctx):
             ctx.excluded("C16-whfast-mass-variation")
             return
 
+    # domain guard for the fixed-step maps: docs/integrators.md asks for a step of "a few percent of the smallest
+    # dynamical timescale", which for an eccentric orbit is the pericentre passage P*(1-e)^1.5.  With coarser steps
+    # (measured: e=0.78, 27-50 steps per orbit, dt = 0.2-0.37 of that timescale) WHFast's map is noisy at the 1e-11
+    # level (stopping criterion of the Kepler solver): the difference quotient of shadow runs then has an error that
+    # grows like 1/h and no finite-difference oracle exists.  Such cases are counted and skipped.
+    if integ in ("whfast", "leapfrog"):
+        a1 = sysd["planets"][0]["a"]
+        tperi = min((pl["a"] / a1) ** 1.5 * (1.0 - pl["e"]) ** 1.5 for pl in sysd["planets"])      # in units of P_in
+        if case["dtfrac"] > 0.05 * tperi:
+            ctx.skip("fixed step does not resolve pericentre (dt > 5% of P(1-e)^1.5): outside the documented step-size advice")
+            return
+
     # element family per varied particle
     fams = {}
     if order == 2 and case["j2"] == j:
@@ -1024,6 +1036,13 @@ def run_megno(case, ctx):
         sim.add(primary=sim.particles[0], **pl)
     sim.move_to_com()
     P = TWO_PI * math.sqrt(case["planets"][0]["a"] ** 3 / case["G"])
+    # domain guard: "regular orbits".  A period ratio within 0.02 of a half-integer sits on a first/second/third
+    # order mean-motion resonance: for a2/a1 = 2.5195 (period ratio 3.9993, the 4:1 resonance) MEGNO is 1.11 after
+    # 4000 orbits with WHFast and with IAS15 alike, 1.75 after 16000 and 4.3 after 32000: not a regular orbit.
+    pr = (case["planets"][1]["a"] / case["planets"][0]["a"]) ** 1.5
+    if abs(2.0 * pr - round(2.0 * pr)) < 0.04:
+        ctx.skip("period ratio within 0.02 of a half-integer (mean-motion resonance): not the regular regime")
+        return
     sim.integrator = case["integrator"]
     sim.dt = case["dtfrac"] * P
     sim.init_megno(seed=case["seed"])
